@@ -10,15 +10,15 @@ T = {
          "Calls are made under exactly chosen authorization sets (not mock_all_auths), so a missing or misplaced require_auth is an observable success; allowances are probed on the ledger lattice of each expiry under two temp-TTL configurations."),
  "C03": ("reference matcher for rule precedence + offline checker over policy/verifier call logs, crafted __check_auth payloads",
          "The real multisig account's __check_auth is probed with generated rule sets, contexts and signer sets and compared with an independent matcher; policy/verifier call logs are checked for exactly-once."),
- "C04": ("gate reference model (2^7 sweep per transfer entry point) + frozen<=balance invariant + exactly-once compliance-hook log checker + identity gate end to end over the real identity-verifier stack",
+ "C04": ("gate reference model (2^7 sweep per transfer entry point) + frozen<=balance invariant + exactly-once compliance-hook log checker (token side and, through the library's dispatcher, module side with per-module hook subscriptions) + identity gate end to end over the real identity-verifier stack + tokens that are not wired up",
          "All combinations of closed gates are driven against the real RWA overrides with instrumented compliance/identity contracts; random supervisory histories check freeze bookkeeping."),
- "C05": ("differential BigInt oracle for all conversions/previews + share-price monotonicity invariant + exact-authorization histories on the real vault example",
+ "C05": ("differential BigInt oracle for all conversions/previews + share-price monotonicity invariant + exact-authorization histories on the real vault example + configuration setters reachable exactly once",
          "Every vault call is compared with exact rational arithmetic and the cross-multiplied exchange-rate invariant is asserted after every successful operation, across decimals offsets 0..=10 and amounts up to 2^126."),
- "C06": ("exact-authorization monitor + role-membership reference model + bijective index-table invariant",
+ "C06": ("exact-authorization monitor + role-membership reference model + bijective index-table invariant, incl. the list of existing roles at its limit of 256",
          "Grant/revoke/renounce/admin histories from every kind of caller under every authorizing subset; all getters compared with a model set after every call."),
  "C07": ("latest-offer reference model with ledger moves to the expiry lattice of every offer ever made, exact authorization",
          "The two-step handshake is driven through offer/replace/cancel/accept/renounce histories with min_temp_entry_ttl=1 and the holder observed after every call."),
- "C08": ("timelock state-machine reference model (both ways of consuming an operation) + target-invocation log checker + the controller example's self-administration sweep",
+ "C08": ("timelock state-machine reference model (both ways of consuming an operation) + target-invocation log checker + the controller example's self-administration sweep + never-initialised timelock",
          "Schedule/cancel/execute/set_min_delay histories with ledger moves to ready-1/ready/ready+1 of every pending operation; target invoked exactly once per successful execute."),
  "C09": ("systematic end-to-end payload sweep against the real timelock-controller __check_auth with before/after effect observation + reference model (operation table, minimum delay, role table) over long-lived controller histories",
          "Every admin-only entry point x operation state x payload shape x executor variant is attempted end to end with hand-built authorization entries; any effect without a consumed Ready operation is a violation."),
@@ -26,23 +26,23 @@ T = {
          "owner_of is compared with the model for every id in range (plus margin) repeatedly during histories of mint/batch-mint/transfer/burn; enumerations checked as permutations."),
  "C11": ("exact-authorization monitor + approval/operator reference model at expiry lattices",
          "Transfers, burns and approvals by owner / approved / operator / former owner / stranger under every authorizing subset; approvals observed for all ids after every call."),
- "C12": ("differential oracle: exact BigInt arithmetic vs plain and checked variants, exhaustive boundary lattice cubed + random bit-length classes",
+ "C12": ("differential oracle: exact BigInt arithmetic vs plain and checked variants, exhaustive boundary lattice cubed + random bit-length classes + Wad::pow along the edge of the representable range (bisection on the reference)",
          "The lattice part enumerates its finite space completely; the random part samples every (bits(x),bits(y),boundary denominator) class so phantom overflow is hit by construction."),
  "C13": ("voting-timeline reference model; offline immutability-of-the-past checker over repeated historical queries",
          "Every account x many past ledgers is queried at every ledger close and again at history end and compared with the model's end-of-ledger values."),
- "C14": ("exhaustive signer-subset/threshold sweep; full-history rolling-window recomputation for spending limits; can_enforce == enforce agreement",
+ "C14": ("exhaustive signer-subset/threshold sweep; full-history rolling-window recomputation for spending limits (periods up to u32::MAX); can_enforce == enforce agreement; accounts that never installed the policy",
          "The real policy examples are driven with every threshold and signer subset, and spending histories around window edges are re-summed independently of the contract's cache."),
- "C15": ("iff-oracle over registries modelled from their edit history and claims with real signatures of all three schemes, incl. a scripted non-conforming issuer",
+ "C15": ("iff-oracle over registries modelled from their edit history and claims with real signatures of all three schemes, incl. a scripted non-conforming issuer, a scripted identity contract under its holder's control, and half-wired verifiers",
          "verify_identity and is_claim_valid are compared with a model of 'every required topic has a valid claim from a currently trusted issuer' across registry edit histories and claim defects."),
- "C16": ("reference models for pause flag, allow/block lists, cap and migration flag with exact authorization on gated entry points",
+ "C16": ("reference models for pause flag, allow/block lists, cap (also never set) and migration flag with exact authorization on gated entry points, stacked guard macros",
          "Every guarded entry point of the real examples is attempted in every list/flag assignment; success with a vetted party disallowed/blocked or while paused is a violation."),
- "C17": ("differential oracle with an independent Merkle tree builder, single-corruption sweep, claimed-set reference model",
+ "C17": ("differential oracle with an independent Merkle tree builder, single-corruption sweep (incl. special-valued and ill-typed proof entries), claimed-set reference model over root changes, unfunded airdrops and distributors without root",
          "Honest proofs must verify and every single corruption must not, for all leaves of trees of 1..=33 (thorough 257) leaves and both hashers; the distributor's claimed set is modelled over claim histories."),
- "C18": ("differential oracle: genuine assertions vs single corruptions, all 256 flag bytes, independent RFC 4648 encoder",
+ "C18": ("differential oracle: genuine assertions vs single corruptions, all 256 flag bytes, client-data shapes, key / signature byte strings of other lengths, independent RFC 4648 encoder, extract_from_bytes vs slice model",
          "Real P-256/Ed25519 signatures are generated and each field corrupted one at a time against the real verifier examples; the encoder is compared exhaustively for lengths 0-2."),
- "C19": ("exact-authorization monitor with tuple variants + fee/allowance/target-log reference model + allow-list enumeration invariant + no-residue check, on both forwarder examples and on collect_fee directly",
+ "C19": ("exact-authorization monitor with tuple variants + fee/allowance/target-log reference model + allow-list enumeration invariant + no-residue check, on both forwarder examples and on collect_fee directly + sweep of collected fees",
          "Both fee forwarder examples are driven with fee/max/expiration lattices, every authorizing subset and authorization tuples differing in one field; balances and the target's call log are compared with the model."),
- "C20": ("one set/map reference model per registry, all getters compared after every operation, limits at and past capacity",
+ "C20": ("one set/map reference model per registry, all getters compared after every operation, limits at and past capacity (thorough: the binder at 10 000 and the document registry at 5 000 entries, with coverage floors)",
          "Eight registries under add/remove/update histories over tiny key universes, biased to swap-remove edges and capacity limits."),
 }
 NOTE = "Trusted: the Soroban test host (native execution, rollback, require_auth, TTL, crypto), oracle crates (num-bigint, RustCrypto), and that bounded generated histories are representative; a defect needing a longer/wider history than generated is out of reach. Sanitizers/Miri do not apply (no unsafe, no threads; nightly cannot build soroban-env-common) - see DESIGN.md section 1."
